@@ -13,7 +13,7 @@ from .exceptions import LabError, TaskNotFound
 from .monitor import TaskMonitor
 from .runners import ForkRunnerBackend, SerialRunnerBackend, SpawnRunnerBackend
 from .storage import LocalStorage, NullStorage
-from .tasks import get_direct_dependencies
+from .tasks import get_direct_dependency_instances
 from .types import LabContext, ResultMeta, ResultT, RunnerBackend, Storage, Task, TaskT, is_task, is_task_type
 from .utils import OrderedSet, base_tqdm, is_ipython, logger, tqdm, tqdm_notebook
 
@@ -63,9 +63,11 @@ class TaskState:
                 continue
             self.processed_task_ids.add(id(task))
 
-            dependency_tasks: OrderedSet[Task] = OrderedSet()
+            # All instances of equal dependency tasks are processed so
+            # that every one of them is tracked in task_to_instances.
+            dependency_tasks: list[Task] = []
             if not self.coordinator.use_cache(task):
-                dependency_tasks = get_direct_dependencies(task)
+                dependency_tasks = get_direct_dependency_instances(task)
 
             # We insert all of the top-level tasks before processing
             # discovered dependencies, so that we will attempt to run
